@@ -1,8 +1,12 @@
 (** C01 - Every partitioner returns a true partition into the requested number of bins.
     is_partition: every item exactly once (Permutation of the contents), exactly k bins, recorded sums are the totals.
     `X_total`: a run to completion (no time limit) never yields a missing result.
-    Statements only; proofs in Proofs/{Greedy,KK,CG,DP,CBLDM,SNP,Multifit,ILP}Proofs.v. *)
-From Prtpy Require Import Base.Prelude Model.Binner Model.Objectives Model.Greedy Model.KK Model.CG Model.DP Model.CBLDM Spec.Partition Proofs.GreedyProofs Proofs.KKProofs Proofs.CGProofs Proofs.DPProofs Proofs.CBLDMProofs.
+    snp/rnp: premise `nameof` injective = names determine items (plain numbers, or distinct names).
+    rnp is proved for 1..3 bins only (beyond: known finding rnp-float-index; 4 and 5 bins judged per input).
+    multifit: its float capacity search is modelled bit-exactly (Model/Multifit.v, binary64 as dyadic rationals); it may return fewer bins, never more.
+    ilp: the decoding of a solver answer is a partition (Properties/C17); judged per input here.
+    Statements only; proofs in Proofs/{Greedy,KK,CG,DP,CBLDM,SNP}Proofs.v. *)
+From Prtpy Require Import Base.Prelude Model.Binner Model.Objectives Model.Greedy Model.KK Model.CG Model.DP Model.CBLDM Model.SNP Spec.Partition Proofs.GreedyProofs Proofs.KKProofs Proofs.CGProofs Proofs.DPProofs Proofs.CBLDMProofs Proofs.SNPProofs Model.Multifit Proofs.MultifitProofs.
 
 (** greedy / LPT *)
 Theorem C01_greedy_partition :
@@ -86,4 +90,57 @@ Theorem C01_cbldm_total :
   exists (b : bins A) (t : nat), cbldm valueof 2 items true d true None = Ok (CbBins b, t).
 Proof. exact @cbldm_total. Qed.
 Print Assumptions C01_cbldm_total.
+
+(** sequential number partitioning: returns a result, and it is a partition *)
+Theorem C01_snp_partition :
+  forall (A : Type) (valueof nameof : A -> Z),
+  (forall x y : A, nameof x = nameof y -> x = y) ->
+  forall (k : nat) (items : list A),
+  (1 <= k)%nat ->
+  items <> [] ->
+  exists b : bins A, snp valueof nameof true k items = Ok b /\ is_partition valueof k items b.
+Proof. exact @snp_partition. Qed.
+Print Assumptions C01_snp_partition.
+
+(** recursive number partitioning, 1..3 bins *)
+Theorem C01_rnp_partition_small :
+  forall (A : Type) (valueof nameof : A -> Z),
+  (forall x y : A, nameof x = nameof y -> x = y) ->
+  forall (k : nat) (items : list A) (b : bins A),
+  (1 <= k <= 3)%nat ->
+  items <> [] -> rnp valueof nameof true k items = Ok b -> is_partition valueof k items b.
+Proof. exact @rnp_partition_small. Qed.
+Print Assumptions C01_rnp_partition_small.
+
+(** multifit: every item exactly once, recorded sums are the totals, no empty bin *)
+Theorem C01_multifit_partition :
+  forall (A : Type) (valueof : A -> Z) (it k : nat) (items : list A) (b : bins A),
+  items <> [] ->
+  Forall (fun x : A => 0 <= valueof x) items ->
+  multifit valueof true it k items = Ok b ->
+  Permutation (contents b) items /\ wf valueof b /\ all_nonempty b.
+Proof. exact @multifit_partition. Qed.
+Print Assumptions C01_multifit_partition.
+
+(** multifit never returns more than the requested number of bins (values and numbins below 2^53) *)
+Theorem C01_multifit_at_most_k :
+  forall (A : Type) (valueof : A -> Z) (it k : nat) (items : list A) (b : bins A),
+  items <> [] ->
+  Forall (fun x : A => 0 <= valueof x) items ->
+  (1 <= k)%nat ->
+  zmax (map valueof items) <= 2 ^ 53 ->
+  Z.of_nat k < 2 ^ 53 -> multifit valueof true it k items = Ok b -> (length b <= k)%nat.
+Proof. exact @multifit_at_most_k. Qed.
+Print Assumptions C01_multifit_at_most_k.
+
+(** multifit always returns a result *)
+Theorem C01_multifit_total :
+  forall (A : Type) (valueof : A -> Z) (keep : bool) (it k : nat) (items : list A),
+  items <> [] ->
+  Forall (fun x : A => 0 <= valueof x) items ->
+  (1 <= k)%nat ->
+  zmax (map valueof items) <= 2 ^ 53 ->
+  exists b : bins A, multifit valueof keep it k items = Ok b.
+Proof. exact @multifit_total. Qed.
+Print Assumptions C01_multifit_total.
 
